@@ -510,6 +510,37 @@ fn run_all(ctx: &mut Ctx) {
     // the remaining IsNone impl: a Vec as an element (empty = null)
     null_laws::<Vec<i32>>(&mut t, "Vec<i32>", vec![vec![], vec![0], vec![1, 2]], true, |x| format!("{x:?}"), |a, b| a == b);
     vabs_laws(&mut t);
+    // (L10) the accessor family of the Number trait is the language's `as` conversion, every accessor the same one
+    macro_rules! l10 {
+        ($T:ty) => {{
+            use tevec::prelude::Number;
+            let from = <$T as Vals>::NAME;
+            for x in <$T as Vals>::vals() {
+                let xs = x.show();
+                t.check("L10 Number::f64 == as f64", None, from, "f64", xs.clone(), catch(|| Number::f64(x)), &(x as f64));
+                t.check("L10 Number::f32 == as f32", None, from, "f32", xs.clone(), catch(|| Number::f32(x)), &(x as f32));
+                t.check("L10 Number::i32 == as i32", None, from, "i32", xs.clone(), catch(|| Number::i32(x)), &(x as i32));
+                t.check("L10 Number::i64 == as i64", None, from, "i64", xs.clone(), catch(|| Number::i64(x)), &(x as i64));
+                t.check("L10 Number::usize == as usize", None, from, "usize", xs.clone(), catch(|| Number::usize(x)), &(x as usize));
+                t.check("L10 Number::to::<f64>", None, from, "f64", xs.clone(), catch(|| x.to::<f64>()), &(x as f64));
+                t.check("L10 Number::to::<i64>", None, from, "i64", xs.clone(), catch(|| x.to::<i64>()), &(x as i64));
+                t.check("L10 Number::to::<usize>", None, from, "usize", xs.clone(), catch(|| x.to::<usize>()), &(x as usize));
+                t.check("L10 Number::to::<i32>", None, from, "i32", xs.clone(), catch(|| x.to::<i32>()), &(x as i32));
+                t.check("L10 Number::to::<f32>", None, from, "f32", xs.clone(), catch(|| x.to::<f32>()), &(x as f32));
+                t.check("L10 fromas", None, from, "f64", xs.clone(), catch(|| <f64 as Number>::fromas(x)), &(x as f64));
+                t.check("L10 fromas", None, from, "usize", xs.clone(), catch(|| <usize as Number>::fromas(x)), &(x as usize));
+                t.check("L10 fromas", None, from, "i32", xs.clone(), catch(|| <i32 as Number>::fromas(x)), &(x as i32));
+            }
+            t.check("L10 min_() == MIN", None, from, from, "MIN".into(), catch(|| <$T as Number>::min_()), &<$T>::MIN);
+            t.check("L10 max_() == MAX", None, from, from, "MAX".into(), catch(|| <$T as Number>::max_()), &<$T>::MAX);
+        }};
+    }
+    l10!(f64);
+    l10!(f32);
+    l10!(i32);
+    l10!(i64);
+    l10!(u64);
+    l10!(usize);
     // (L9) casts into the null convention of another type
     macro_rules! l9 {
         ($S:ty, $sn:expr) => {
